@@ -131,6 +131,11 @@ def echo(src):
 
 
 INST = {"k": "inst"}
+def FILEODD(src):
+    """a file when the int input `src` is odd, null otherwise"""
+    return {"k": "fileodd", "src": src}
+
+
 FILE = {"k": "file"}        # a file the job writes (scalar file-typed output)
 FILES = {"k": "files"}      # an array of two files
 FMAP = {"k": "fmap"}        # a typed map of two files
@@ -158,13 +163,15 @@ def length(src):
 
 
 def stage(name, ins, outs, rules, split=False, chunks=None, couts=None, crules=None,
-          volatile=None, retain=None):
+          volatile=None, retain=None, res=None):
     outs = params(outs)
     st = {"name": name, "ins": params(ins), "outs": outs,
           "rules": [{"n": o["n"], "r": rules[o["n"]]} for o in outs],
           "split": bool(split),
           "chunks": chunks or {"k": "fixed", "c": 1},
           "couts": [], "volatile": volatile or "", "retain": list(retain or [])}
+    if res:
+        st["res"] = [{"n": k, "v": str(v)} for k, v in res.items()]      # using (threads = .., mem_gb = ..)
     if split:
         co = params(couts or "")
         st["couts"] = [{"n": o["n"], "t": o["t"], "r": (crules or {})[o["n"]]} for o in co]
@@ -297,6 +304,8 @@ def render(prog, stage_src="vstage", invocation=True, include_call=True, stage_l
             for p in st["couts"]:
                 out.append("    out %s %s," % (type_str(p["t"]), p["n"]))
         mods = []
+        for r in st.get("res") or []:
+            mods.append("    %s = %s," % (r["n"], r["v"]))
         if st.get("volatile"):
             mods.append("    volatile = %s," % st["volatile"])
         if mods:
